@@ -16,9 +16,22 @@ PROPS = {
     "C01": {"level": "exploration", "arms": [A("seq-free", 60000, 3000000), A("seq-depthfree", 20000, 600000)],
             "probes": ["branched(explored>=2)", "infeasible_instance", "negative_optimum", "fault:width_jitter", "fault:rub_slack", "fault:cache_lossy_fired", "fault:dominance_weak_fired", "mon_merge_calls"],
             "rule": RULE_SOLVER},
+    "C02": {"level": "exploration", "arms": [A("seq-free", 40000, 1500000), A("par-free", 30000, 1200000), A("par-cutoff", 30000, 1200000), A("seq-sweep", 4000, 150000)],
+            "probes": ["branched(explored>=2)", "fault:cutoff_fired", "probe:>=2_workers_compiling_at_once", "infeasible_instance"],
+            "rule": RULE_SOLVER},
     "C03": {"level": "exploration", "arms": [A("par-free", 40000, 2500000), A("par-free-wide", 8000, 400000)],
             "probes": ["probe:>=2_workers_compiling_at_once", "probe:worker_parked_and_woken", "probe:multi_wake", "probe:pruned_by_cache_at_pop", "probe:read_threshold_written_by_peer", "fringe_clears", "fault:preemptions"],
             "rule": RULE_SOLVER},
+    "C04": {"level": "exploration", "arms": [A("par-free", 30000, 1500000), A("par-cutoff", 40000, 2000000), A("par-flaky", 20000, 800000), A("par-threads", 20000, 800000), A("par-threads-cutoff", 20000, 800000)],
+            "probes": ["probe:multi_wake", "probe:abort_with_peer_parked", "probe:abort_with_peer_processing", "fault:thread_count_increase", "fault:cutoff_fired", "probe:worker_parked_and_woken"],
+            "rule": RULE_SOLVER + "; violation classes: deadlock (no enabled worker while one is parked), step-bound, worker panic, premature completion"},
+    "C05": {"level": "exploration", "arms": [A("par-cutoff", 60000, 3000000), A("par-threads-cutoff", 10000, 400000), A("seq-sweep", 6000, 250000)],
+            "probes": ["fault:cutoff_fired", "probe:abort_with_peer_parked", "probe:abort_with_peer_processing", "probe:ub_strictly_decreased_between_consecutive_k", "sweep_executions"],
+            "rule": RULE_SOLVER + "; sequential arm: for each sampled (instance, configuration) EVERY cutoff index k in 1..K+1 is executed (K = polls of the uninterrupted run); each (instance, configuration, k) with k <= K counts as one distinct non-trivial case"},
+    "C19": {"level": "fault_enumeration", "arms": [A("seq-sweep", 12000, 500000)],
+            "probes": ["probe:ub_strictly_decreased_between_consecutive_k", "probe:lb_strictly_increased_between_consecutive_k", "probe:nodup_coalesced_diff_ub", "sweep_executions"],
+            "rule": "for each sampled (instance, configuration) the uninterrupted run gives K polls, then EVERY cutoff index k in 1..K+1 is executed and consecutive k are compared; a case = (instance, configuration, k); non-trivial = k <= K (the cutoff really fires); distinct by hash of (tables, configuration, k)",
+            "extra_coverage": {"exhaustive_over": "the cutoff index k, per sampled instance (instances themselves are sampled)"}},
 }
 
 
@@ -41,7 +54,7 @@ def evidence(prop, cfg, tier, seed, per_arm, wall, new_violations, known_printed
     probes = {k: v for k, v in counters.items() if k.startswith("probe:")}
     unreached = [p for p in cfg.get("probes", []) if counters.get(p, 0) == 0]
     cov = {
-        "evaluations": int(counters.get("evaluations_override", runs)) if runs or counters.get("evaluations_override") else 0,
+        "evaluations": int(runs + counters.get("sweep_executions", 0)),
         "distinct_nontrivial": distinct,
         "rule": cfg.get("rule", ""),
         "samples": samples[:6] if samples else [{"note": "no sample recorded"}],
